@@ -1,16 +1,25 @@
 (* C14 -- property theorems only.  Each is closed by `exact` of a lemma from
    proofs/ and followed by Print Assumptions.  The shape switches come from
-   coq/gen/GenC14.v (regenerated from the working tree on every run): the theorems
-   below only type-check when dagrt.data.unify accepts Integer in both asserts
-   (fixes/C14_unify_symmetric.patch) and SymbolKindTable.set flags an insertion as a
-   change (fixes/C14_set_insert_changed.patch). *)
+   coq/gen/GenC14.v (regenerated from the working tree on every run); the premises
+   `switch = true` of the lemmas are discharged by eq_refl, so
+   - C14_comm / C14_assoc only type-check when dagrt.data.unify accepts Integer in both asserts
+     (fixes/C14_unify_symmetric.patch),
+   - C14_order_independent_partial additionally needs SymbolKindTable.set to flag an insertion
+     as a change (fixes/C14_set_insert_changed.patch),
+   - C14_order_independent additionally needs set to re-raise a failing unification
+     (fixes/C14_set_reraises.patch) and the finder to register loop variables up front
+     (fixes/C14_loop_variables_prepass.patch).
+   For the defective shapes proofs/ holds the refutations (UnifyProofs.unify_comm_refuted_*,
+   unify_assoc_refuted_*, KindFinderExamples.insert_unflagged_refuted, first_kind_wins_refuted,
+   full_statement_refuted, KindCfgProofs.gen_full_statement_refuted). *)
 From Coq Require Import List String Bool Permutation.
 From Dagrt Require Import GenC14 Unify KindInfer KindInferCfg UnifyProofs KindInferProofs
-  KindFinderProofs KindFinderExamples.
+  KindFinderProofs KindFinderFull KindFinderExamples KindCfgProofs.
 
 (* Order independence at full strength, for the code as it is now (gen_cfg): the same
-   statements presented in another order give the same outcome (both runs fail, or both
-   return equal tables). *)
+   (phase, statement) pairs presented in another order give the same outcome -- both runs fail,
+   or both return equal tables -- fuel exhaustion aside.  Inputs: no empty product in a
+   flattened right-hand side, forced kinds are not None. *)
 Definition C14_full_statement : Prop := full_statement gen_cfg.
 
 Theorem C14_idem : forall k r, gen_unify k k = Ok r -> r = k.
@@ -22,18 +31,21 @@ Proof. exact (unify_idem_defined unify_usertype_accepts_int unify_array_accepts_
 Print Assumptions C14_idem_defined.
 
 Theorem C14_comm : forall a b, res_sim (gen_unify a b) (gen_unify b a).
-Proof. exact unify_comm. Qed.
+Proof. exact (gen_unify_comm eq_refl eq_refl). Qed.
 Print Assumptions C14_comm.
 
 Theorem C14_assoc : forall a b c,
   res_sim (bind (gen_unify a b) (fun x => gen_unify x c))
           (bind (gen_unify b c) (fun y => gen_unify a y)).
-Proof. exact unify_assoc. Qed.
+Proof. exact (gen_unify_assoc eq_refl eq_refl). Qed.
 Print Assumptions C14_assoc.
 
-(* Two runs on permuted statement lists that both return a table, and in which no failed
-   unification was printed-and-ignored, return equal tables.  (wf_item: no empty product in
-   the flattened right-hand side; forced kinds are not None.) *)
+Theorem C14_order_independent : C14_full_statement.
+Proof. exact (gen_order_independent eq_refl eq_refl eq_refl eq_refl eq_refl). Qed.
+Print Assumptions C14_order_independent.
+
+(* Weaker, but needs only the first two repairs: two runs on permuted statement lists that both
+   return a table, and in which no failed unification was printed-and-ignored, return equal tables. *)
 Theorem C14_order_independent_partial : forall fuel fuel' forced all all' T T',
   Permutation all all' ->
   (forall it, In it all -> wf_item it) ->
@@ -41,14 +53,5 @@ Theorem C14_order_independent_partial : forall fuel fuel' forced all all' T T',
   run_queue gen_cfg fuel forced all = OTable T false ->
   run_queue gen_cfg fuel' forced all' = OTable T' false ->
   table_equiv T T'.
-Proof. exact (order_independent_partial_cfg set_reraises). Qed.
+Proof. exact (gen_order_independent_partial eq_refl eq_refl eq_refl). Qed.
 Print Assumptions C14_order_independent_partial.
-
-(* The full statement is false of the code: a loop variable registered by a statement that does
-   not count as progress makes one order end in AssertionError and the other in a table. *)
-Theorem C14_order_independent_refuted : ~ C14_full_statement.
-Proof.
-  exact (full_statement_refuted unify_usertype_accepts_int unify_array_accepts_int
-           set_insert_marks_changed set_reraises).
-Qed.
-Print Assumptions C14_order_independent_refuted.
